@@ -11,6 +11,8 @@ REQUIRED = [
     "DaeVerif.C09.Props.join_while_flight_runs_starts_no_resolution",
     "DaeVerif.C09.Props.answers_come_from_accepted_upstream_messages",
     "DaeVerif.C09.Props.reask_is_bounded",
+    "DaeVerif.C09.Props.leader_departure_does_not_fail_followers",
+    "DaeVerif.C09.Props.leader_bound_context_fails_followers",
     "DaeVerif.C09.Props.malformed_query_touches_nothing",
     "DaeVerif.C09.Props.udp_id_match",
     "DaeVerif.C09.Props.udp_single_call",
@@ -59,7 +61,8 @@ FLOORS = {
                                       "ctl.fwdlife.retire-while-blocked": 100,
                                       "ctl.scenario.response-routing": 350, "ctl.rr.resolve.levels=2": 130, "ctl.rr.resolve.levels=3": 45,
                                       "ctl.rr.third-level-failed-or-too-deep": 15, "ctl.rr.reasked-and-answered": 50,
-                                      "ctl.client.questions=2": 70, "ctl.client.questions=0": 35},
+                                      "ctl.client.questions=2": 70, "ctl.client.questions=0": 35,
+                                      "ctl.op.gone.leader.with-live-waiters": 60, "ctl.op.gone.follower.with-live-waiters": 60},
                            "c09pipe": {"pipe.recv.held": 1000, "pipe.cancel": 400, "pipe.closeswap": 600, "pipe.writefail": 150, "pipe.abort-before-write": 150},
                            "c09loop": {"loop.at.b5": 2000, "loop.at.e2r": 900, "loop.at.factory": 6000, "loop.ret.retired-twice": 400,
                                        "loop.at.r3": 2000},
@@ -72,7 +75,8 @@ FLOORS = {
                                          "ctl.fwdlife.retire-while-blocked": 3000,
                                          "ctl.scenario.response-routing": 12000, "ctl.rr.resolve.levels=2": 4500, "ctl.rr.resolve.levels=3": 1500,
                                          "ctl.rr.third-level-failed-or-too-deep": 500, "ctl.rr.reasked-and-answered": 1800,
-                                         "ctl.client.questions=2": 2500, "ctl.client.questions=0": 1200},
+                                         "ctl.client.questions=2": 2500, "ctl.client.questions=0": 1200,
+                                         "ctl.op.gone.leader.with-live-waiters": 2000, "ctl.op.gone.follower.with-live-waiters": 2000},
                               "c09pipe": {"pipe.recv.held": 40000, "pipe.cancel": 15000, "pipe.closeswap": 25000, "pipe.writefail": 6000, "pipe.abort-before-write": 6000},
                               "c09loop": {"loop.at.b5": 32000, "loop.at.e2r": 14000, "loop.at.factory": 96000, "loop.ret.retired-twice": 6400,
                                           "loop.at.r3": 32000},
@@ -167,6 +171,13 @@ def oracle_ctl(ctx, ops, impl):
                 ctx.report(f"cache entry re-packed with spelling {pending_respell}, which is not the spelling of the request at hand",
                            {"op": op, "impl": im, "clients": clients})
             pending_respell = None
+        if t[:2] == ["C", "gone"]:
+            mo = re.search(r"others-finished=(\S+)", im)
+            if mo and mo.group(1) != "-":
+                ctx.report(f"client {t[2]} went away (its request context was cancelled) while its singleflight group was in flight, "
+                           f"and that finished other, still present clients: {mo.group(1)} - the shared resolution must go on and its "
+                           f"result reach every waiter", {"op": op, "impl": im, "clients": clients, "history": list(hist)})
+            continue
         if t[:2] == ["C", "fwdlife"]:
             ctx.report("forwarder lifecycle through forwardWithDialArg/retire/evict/reset: " + " ".join(t[2:]).replace("_", " "),
                        {"op": op, "impl": im, "history": list(hist)})
